@@ -3,10 +3,10 @@ CONSTANTS
   MT = TRUE
   NZ = 4
   NE = 3
-  NK = 4
+  NK = 3
   Threads = {1, 2}
-  MaxDep = 2
-  EnumRm = {{}, {1}, {2, 3}, {1, 2, 3, 4}}
+  MaxDep = 1
+  EnumRm = {{}, {1, 2}}
   Emit = FALSE
 INVARIANTS Inv PostOK
 CHECK_DEADLOCK TRUE
